@@ -220,9 +220,10 @@ theorem stripDots_valid {v : Bytes} (h : Valid v) : stripDots v = root v := by
     by_cases hc : c = DOT
     · subst hc
       have hr : root (DOT :: r) = r := by simp [root, startsWithDot]
-      rw [hr] at h ⊢
+      have h2 : startsWithDot r = false := by have := h.2; rwa [hr] at this
+      rw [hr]
       simp only [stripDots, if_true]
-      exact stripDots_of_not_dot r h.2
+      exact stripDots_of_not_dot r h2
     · have hr : root (c :: r) = c :: r := by simp [root, startsWithDot, hc]
       rw [hr]
       exact stripDots_of_not_dot _ (by simp [startsWithDot, hc])
@@ -248,14 +249,14 @@ theorem compare_neg_iff {a b : Bytes} (ha : Valid a) (hb : Valid b) : compare a 
   constructor
   · intro h
     by_cases hz : mdn mdnNone b a ≠ 0
-    · simp only [hz, if_true] at h
+    · rw [if_pos hz] at h
       have hlt : lo a < lo b := h2.mp h
       intro hc
       exact hz (h1.mpr ⟨List.lt_asymm hlt, hc⟩)
-    · simp [hz] at h
+    · rw [if_neg hz] at h; omega
   · intro h
     have hz : mdn mdnNone b a ≠ 0 := fun hz => h (h1.mp hz).2
-    simp only [hz, if_true]
+    rw [if_pos hz]
     exact h2.mpr (klt_of_lt_of_nlt (lo_lt_hi a) h)
 
 theorem compare_pos_iff {a b : Bytes} (ha : Valid a) (hb : Valid b) : compare a b > 0 ↔ ¬ lo a < hi b := by
@@ -267,13 +268,13 @@ theorem compare_pos_iff {a b : Bytes} (ha : Valid a) (hb : Valid b) : compare a 
   constructor
   · intro h
     by_cases hz : mdn mdnNone b a ≠ 0
-    · simp only [hz, if_true] at h
+    · rw [if_pos hz] at h
       exact h2.mp h
-    · simp [hz] at h
+    · rw [if_neg hz] at h; omega
   · intro h
     have hlt : lo b < lo a := klt_of_lt_of_nlt (lo_lt_hi b) h
     have hz : mdn mdnNone b a ≠ 0 := fun hz => (h1.mp hz).1 hlt
-    simp only [hz, if_true]
+    rw [if_pos hz]
     exact h2.mpr h
 
 /-- `Compare` reports 0 exactly for overlapping intervals -/
